@@ -71,12 +71,12 @@ theorem runMetaBlock_meta (cs : CharSpec) (ext : Ext) (b : List Tok) (evs : Arra
     simp only [this, metaOf_push]
     rw [hm.1]
 
-theorem withRecover_none {β : Type} (f : P α (Option β)) (s s2 : BP α) (h : f s = (none, s2)) :
+theorem withRecover_none_ma {β : Type} (f : P α (Option β)) (s s2 : BP α) (h : f s = (none, s2)) :
     withRecover f s = (none, { s2 with cur := s.cur }) := by
   simp only [withRecover, bind, StateT.bind, getCur, get, getThe, MonadStateOf.get, StateT.get, pure, StateT.pure, h]
   rfl
 
-theorem withRecover_some {β : Type} (f : P α (Option β)) (s s2 : BP α) (a : β) (h : f s = (some a, s2)) :
+theorem withRecover_some_ma {β : Type} (f : P α (Option β)) (s s2 : BP α) (a : β) (h : f s = (some a, s2)) :
     withRecover f s = (some a, s2) := by
   simp only [withRecover, bind, StateT.bind, getCur, get, getThe, MonadStateOf.get, StateT.get, pure, StateT.pure, h]
   rfl
@@ -100,12 +100,12 @@ theorem parseBlock_meta_head (s0 : BP α) (hk : (s0.toks[s0.cur]?).map (·.kind)
     exact ((mf_parseMultilineBlock (α := α)).run s).1.trans hs
   cases e with
   | none =>
-    rw [withRecover_none (s2 := s1)]
+    rw [withRecover_none_ma (s2 := s1)]
     · simpa [newOf] using hother { s1 with cur := s0.cur } hm.1
     · simp only [StateT.bind, hme]; rfl
   | some ev =>
     obtain ⟨k, v, rfl⟩ := hret ev rfl
-    rw [withRecover_some (s2 := s1) (a := .metadata k v)]
+    rw [withRecover_some_ma (s2 := s1) (a := .metadata k v)]
     · show metaOf (s1.evs.push (.metadata k v)) = _
       rw [metaOf_push, hm.1]; rfl
     · simp only [StateT.bind, hme, Bool.or_true, if_true]; rfl
